@@ -284,4 +284,4 @@ def run(fx, rep):
     okk = len(outs) == 2 and any('Bool{const(True)}' in x for x in flat) and any(re.search(r'Bool\{\(resolve\(.*args\[0\].*\) as Bool\)', x) for x in flat)
     rep.check(okk, 'R3', 'not_strictly_false/Bool(b)->b,else->true', a['loc'], ' | '.join(flat)[:160], '@not_strictly_false returns %s, expected Bool(b) -> b, anything else -> true' % flat)
     rep.floor('R1', 45)
-    rep.floor('R2', 21)
+    rep.floor('R2', 11)
